@@ -537,7 +537,83 @@ fn text_graph(p: &Project, root: &Path) -> (BTreeMap<String, BTreeSet<String>>, 
     (deps, dirs)
 }
 
+/// exports -> interface JSON (the text the CLI writes) -> exports: what the typer of an importer reads
+/// (`exports.apply_to`, `hir_interface`) must be what the exporter wrote.  Compared three ways that do not
+/// go through each other: the `Debug` rendering of every field (maps in their iteration order), the compact
+/// JSON of the re-read value, and the hash the loader recomputes.
+fn exports_roundtrip(unit: &compiler::artifact::InterfaceUnit, json: &str) -> (String, usize) {
+    let e = &unit.exports;
+    let entries = e.type_env.enums.len() + e.type_env.structs.len() + e.type_env.extern_types.len() + e.trait_env.trait_defs.len()
+        + e.trait_env.trait_impls.len() + e.trait_env.inherent_impls.len() + e.value_env.funcs.len() + e.value_env.extern_funcs.len();
+    // entries of the package itself (every package's exports also carry the builtins of `GlobalTypeEnv::new()`)
+    static BUILTINS: std::sync::OnceLock<usize> = std::sync::OnceLock::new();
+    let nb = *BUILTINS.get_or_init(|| {
+        let g = compiler::env::GlobalTypeEnv::new();
+        g.type_env.enums.len() + g.type_env.structs.len() + g.type_env.extern_types.len() + g.trait_env.trait_defs.len()
+            + g.trait_env.trait_impls.len() + g.trait_env.inherent_impls.len() + g.value_env.funcs.len() + g.value_env.extern_funcs.len()
+    });
+    let entries = entries.saturating_sub(nb);
+    let back: compiler::artifact::InterfaceUnit = match serde_json::from_str(json) {
+        Ok(u) => u,
+        Err(err) => return (format!("parse-error:{}", err.to_string().chars().take(80).collect::<String>()), entries),
+    };
+    let v = if format!("{:?}", back.exports) != format!("{:?}", unit.exports) {
+        "exports-differ"
+    } else if format!("{:?}", back.exports.to_genv()) != format!("{:?}", unit.exports.to_genv()) {
+        "genv-differs"
+    } else if format!("{:?}", back.hir_interface) != format!("{:?}", unit.hir_interface) {
+        "hir-interface-differs"
+    } else if back.deps != unit.deps || back.package != unit.package {
+        "header-differs"
+    } else if serde_json::to_string(&back).ok() != serde_json::to_string(unit).ok() {
+        "json-differs"
+    } else if !back.validate_hash() || back.interface_hash != unit.interface_hash {
+        "hash-differs"
+    } else {
+        "same"
+    };
+    (v.to_string(), entries)
+}
+
+fn fnv64(s: &str) -> String {
+    let mut h: u64 = 0xcbf29ce484222325;
+    for b in s.as_bytes() {
+        h ^= *b as u64;
+        h = h.wrapping_mul(0x100000001b3);
+    }
+    format!("{:016x}", h)
+}
+
+/// the eight maps of an environment, each as `(part.field (key value-hash) …)` in iteration order; keys are
+/// the `Debug` rendering of the real key, values a 64-bit hash of the `Debug` rendering of the real value
+fn env_dump(t: &compiler::env::TypeEnv, tr: &compiler::env::TraitEnv, v: &compiler::env::ValueEnv) -> crate::sexp::S {
+    use crate::sexp::{a, l};
+    fn m<'a, K: std::fmt::Debug + 'a, V: std::fmt::Debug + 'a>(name: &str, it: impl Iterator<Item = (&'a K, &'a V)>) -> crate::sexp::S {
+        let mut items = vec![a(name)];
+        for (k, v) in it {
+            items.push(l(vec![a(format!("{:?}", k)), a(fnv64(&format!("{:?}", v)))]));
+        }
+        l(items)
+    }
+    l(vec![
+        m("type_env.enums", t.enums.iter()),
+        m("type_env.structs", t.structs.iter()),
+        m("type_env.extern_types", t.extern_types.iter()),
+        m("trait_env.trait_defs", tr.trait_defs.iter()),
+        m("trait_env.trait_impls", tr.trait_impls.iter()),
+        m("trait_env.inherent_impls", tr.inherent_impls.iter()),
+        m("value_env.funcs", v.funcs.iter()),
+        m("value_env.extern_funcs", v.extern_funcs.iter()),
+    ])
+}
+
+fn genv_dump(g: &compiler::env::GlobalTypeEnv) -> crate::sexp::S {
+    env_dump(&g.type_env, &g.trait_env, &g.value_env)
+}
+
 struct SepResult {
+    linkenv: Option<crate::sexp::S>,
+    roundtrip: Vec<(String, (String, usize))>,
     outcome: String,
     go: Option<crate::sexp::S>,
     core: Option<crate::sexp::S>,
@@ -550,7 +626,7 @@ fn separate_build(root: &Path, order: &[String], dirs: &BTreeMap<String, PathBuf
     let _ = std::fs::remove_dir_all(&art);
     let _ = std::fs::create_dir_all(&art);
     let mut iface = Vec::new();
-    let mut res = SepResult { outcome: String::new(), go: None, core: None, go_text: String::new(), iface: Vec::new() };
+    let mut res = SepResult { linkenv: None, roundtrip: Vec::new(), outcome: String::new(), go: None, core: None, go_text: String::new(), iface: Vec::new() };
     for p in order {
         let dir = dirs.get(p).cloned().unwrap_or_else(|| root.join(p));
         let inputs = package_inputs(&dir);
@@ -571,6 +647,7 @@ fn separate_build(root: &Path, order: &[String], dirs: &BTreeMap<String, PathBuf
             Ok(unit) => {
                 let ij = serde_json::to_string_pretty(&unit.interface).unwrap_or_default();
                 let cj = serde_json::to_string_pretty(&unit).unwrap_or_default();
+                res.roundtrip.push((p.clone(), exports_roundtrip(&unit.interface, &ij)));
                 let _ = std::fs::write(art.join(format!("{}.interface", p)), ij);
                 let _ = std::fs::write(art.join(format!("{}.core", p)), cj);
             }
@@ -594,8 +671,17 @@ fn separate_build(root: &Path, order: &[String], dirs: &BTreeMap<String, PathBuf
             }
         }
     }
+    // the exports the link reads (re-read from JSON), in the order the cores are handed to `link_cores`
+    let pkgs_dump: Vec<crate::sexp::S> = units
+        .iter()
+        .map(|u| {
+            let e = &u.interface.exports;
+            crate::sexp::l(vec![crate::sexp::a(u.package.clone()), env_dump(&e.type_env, &e.trait_env, &e.value_env)])
+        })
+        .collect();
     match separate::link_cores(units) {
         Ok(lo) => {
+            res.linkenv = Some(crate::sexp::l(vec![crate::sexp::l(pkgs_dump), genv_dump(&lo.genv)]));
             res.outcome = "ok".to_string();
             res.go_text = lo.go.to_pretty(&lo.goenv, 120);
             res.go = Some(godump::gfile(&lo.go));
@@ -624,6 +710,7 @@ fn run_project(p: &Project, root: &Path, cap: usize, rng: &mut Rng, out: &mut St
             whole_go_text = c.go.to_pretty(&c.goenv, 120);
             writeln!(out, "{}\tSTAGE\tw.core\t{}", id, c01::prog(dump::core_file(&c.core), &c01::impls_table(&c.genv)).to_text()).unwrap();
             writeln!(out, "{}\tSTAGE\tw.go\t{}", id, godump::gfile(&c.go).to_text()).unwrap();
+            writeln!(out, "{}\tGENV\tw\t{}", id, genv_dump(&c.genv).to_text()).unwrap();
         }
         Ok(Err(e)) => writeln!(out, "{}\tWHOLE\terr\t{}\t{}", id, util::stage_of(&e), esc_line(&diag_class(&e))).unwrap(),
         Err(pn) => writeln!(out, "{}\tWHOLE\tpanic\t{}", id, esc_line(&util::panic_message(pn))).unwrap(),
@@ -685,6 +772,14 @@ fn run_project(p: &Project, root: &Path, cap: usize, rng: &mut Rng, out: &mut St
                 for (pkg, verdict) in &res.iface {
                     writeln!(out, "{}\tIFACE\t{}\t{}\t{}", id, k, pkg, verdict).unwrap();
                 }
+                if k < 2 {
+                    if let Some(le) = &res.linkenv {
+                        writeln!(out, "{}\tGENV\ts\t{}\t{}", id, k, le.to_text()).unwrap();
+                    }
+                }
+                for (pkg, (verdict, entries)) in &res.roundtrip {
+                    writeln!(out, "{}\tRT\t{}\t{}\t{}\t{}", id, k, pkg, verdict, entries).unwrap();
+                }
                 if res.outcome == "ok" {
                     let idx = match seen.iter().position(|t| *t == res.go_text) {
                         Some(i) => i,
@@ -734,6 +829,8 @@ pub fn main(args: &util::Args) {
             projects.push(g);
         }
     }
+    // the environment every link starts from (`GlobalTypeEnv::new()`: the builtins)
+    writeln!(out, "genv0\tGENV\t0\t{}", genv_dump(&compiler::env::GlobalTypeEnv::new()).to_text()).unwrap();
     let cap = if quick { 6 } else { 120 };
     for p in &projects {
         // deeply nested sources recurse deeply in every pass
